@@ -856,6 +856,7 @@ func (x *c15Ctx) strBytes(w *c15Worker, part int) {
 // ---- run -----------------------------------------------------------------------------------------
 
 func runC15(r *harness.Run) {
+	runPinned(r, "C15")
 	x := &c15Ctx{r: r}
 	nw := harness.Workers()
 	for i := 0; i < nw; i++ {
